@@ -15,14 +15,14 @@ GEN_RULE = ("programs drawn by the seeded generator profiles listed under covera
             "distinct = distinct hash of the full event trace incl. virtual times; ")
 
 
-def plan(profiles_quick, profiles_thorough, rule_nontrivial, required, extra=None):
+def plan(profiles_quick, profiles_thorough, rule_nontrivial, required, extra=None, mt=None, mt_required=None):
     d = {
-        "engines": ["l1"],
-        "quick": {"l1": profiles_quick},
-        "thorough": {"l1": profiles_thorough},
+        "engines": ["l1"] + (["mt"] if mt else []),
+        "quick": {"l1": profiles_quick, "mt": mt or []},
+        "thorough": {"l1": profiles_thorough, "mt": [(n, c * 60) for n, c in (mt or [])]},
         "rule": GEN_RULE + "non-trivial = " + rule_nontrivial,
-        "required_premises": required,
-        "assumptions": COMMON_ASSUME,
+        "required_premises": required + (mt_required or []),
+        "assumptions": COMMON_ASSUME + (["L2 (engine mt): the same programs on real multi-threaded tokio with hooks off; only rules that are sound under real time are evaluated there (oracle/mod.rs: mt_sound); a watchdog hit is inconclusive"] if mt else []),
     }
     if extra:
         d.update(extra)
@@ -58,29 +58,36 @@ PLANS = {
     "C01": plan(Q01, scale(Q01, 40),
                 ">=2 clients submitted and both the waiting and the forcing path were used",
                 ["C01.R1", "C01.R2", "C01.R3.cross_client.wait_force", "C01.R3.cross_client.force_wait",
-                 "C01.R3.same_client.wait_force", "C01.R3.same_client.force_wait", "C01.R4.fold", "C01.R4.reply", "C01.R4.join"]),
+                 "C01.R3.same_client.wait_force", "C01.R3.same_client.force_wait", "C01.R4.fold", "C01.R4.reply", "C01.R4.join"],
+                mt=[('mailbox', 480), ('backpressure', 160)], mt_required=['L2:C01.R1', 'L2:C01.R3.cross_client.wait_force', 'L2:C01.R4.reply']),
     "C02": plan(Q02, scale(Q02, 40),
                 ">=2 clients issued calls through >=2 handle kinds",
-                ["C02.R1", "C02.R2", "C02.R3", "C02.R4.resolved", "C02.R5.after_end", "C02.R5.await_after_end", "C02.R5.pending_across_end"]),
+                ["C02.R1", "C02.R2", "C02.R3", "C02.R4.resolved", "C02.R5.after_end", "C02.R5.await_after_end", "C02.R5.pending_across_end"],
+                mt=[('mailbox', 320), ('owning', 160)], mt_required=['L2:C02.R1', 'L2:C02.R3']),
     "C03": plan(Q03, scale(Q03, 40),
                 "an actor had >=1 restart, or terminated gracefully after a stop/drop/stream-end with >=1 message handled",
                 ["C03.R1.started_first", "C03.R2.nothing_after_stopped", "C03.R3.graceful_end", "C03.R3.finished_on_stream_actor", "C03.R3.cause_leads_to_stopped",
-                 "C03.R4.restart_closes_incarnation"]),
+                 "C03.R4.restart_closes_incarnation"],
+                mt=[('lifecycle', 400), ('stream', 160)], mt_required=['L2:C03.R1.started_first', 'L2:C03.R2.nothing_after_stopped']),
     "C04": plan(Q04, scale(Q04, 40),
                 "a submission was concurrent with, or begun after, a stop request",
                 ["C04.R1.send_before_stop_handled", "C04.R1.call_before_stop_ok", "C04.R2.after_stop_unhandled", "C04.R3.stop_terminates",
-                 "C04.R4.await_after_stopped", "C04.R4.join_after_stopped", "C04.R5.await_result"]),
+                 "C04.R4.await_after_stopped", "C04.R4.join_after_stopped", "C04.R5.await_result"],
+                mt=[('lifecycle', 400), ('owning', 240)], mt_required=['L2:C04.R2.after_stop_unhandled', 'L2:C04.R4.await_after_stopped']),
     "C05": plan(Q05, scale(Q05, 40),
                 "the last strong handle of an actor was dropped while it was running, or a weak handle was upgraded after that",
                 ["C05.R1.no_termination_while_held", "C05.R2.last_drop_terminates", "C05.R2.with_live_timers", "C05.R2.accepted_then_handled",
-                 "C05.R2.exact_time", "C05.R2.quiescent_invariant", "C05.R3.upgrade_after_last_drop", "C05.R3.monotone"]),
+                 "C05.R2.exact_time", "C05.R2.quiescent_invariant", "C05.R3.upgrade_after_last_drop", "C05.R3.monotone"],
+                mt=[('handles', 480)], mt_required=['L2:C05.R3.upgrade_after_last_drop']),
     "C12": plan(Q12, scale(Q12, 40),
                 "a send on a bounded mailbox returned Pending at least once (backpressure was exerted)",
-                ["C12.R1.send_returned", "C12.R2.send_resolves", "C12.R3.unbounded_never_waits", "C12.R4.stop_while_full"]),
+                ["C12.R1.send_returned", "C12.R2.send_resolves", "C12.R3.unbounded_never_waits", "C12.R4.stop_while_full"],
+                mt=[('backpressure', 640)], mt_required=['L2:C12.R1.send_returned', 'L2:C12.R3.unbounded_never_waits']),
     "C17": plan(Q17, scale(Q17, 40),
                 "a join/consume yielded the actor, or an OwningAddr was detached",
                 ["C17.R1.join_after_stopped", "C17.R1.first_join_result", "C17.R2.final_state", "C17.R3.at_most_once", "C17.R3.unpolled_join_takes_nothing", "C17.R4.join_resolves",
-                 "C17.R6.detach_keeps_running"]),
+                 "C17.R6.detach_keeps_running"],
+                mt=[('owning', 480)], mt_required=['L2:C17.R2.final_state', 'L2:C17.R3.at_most_once']),
     "C07": plan(Q07, scale(Q07, 40),
                 "at least one restart request (Addr::restart or Context::restart) was accepted",
                 ["C07.R1.handles_survive", "C07.R2.incarnation_of_message", "C07.R3.restart_count", "C07.R3.strategy_model",
@@ -96,7 +103,8 @@ PLANS = {
     "C13": plan(Q13, scale(Q13, 40),
                 "a stream-attached actor handled both stream items and messages, or was stopped/dropped while its stream was endless",
                 ["C13.R1.items_exactly_once_in_order", "C13.R1.items", "C13.R2.messages_in_order", "C13.R3.never_abandoned", "C13.R4.terminates",
-                 "C13.R4.terminates_despite_endless_stream", "C13.R4.await_ok", "C13.R5.bounded_progress_after_stop"]),
+                 "C13.R4.terminates_despite_endless_stream", "C13.R4.await_ok", "C13.R5.bounded_progress_after_stop"],
+                mt=[('stream', 480)], mt_required=['L2:C13.R1.items_exactly_once_in_order']),
     "C14": plan(Q14, scale(Q14, 40),
                 "stopped()/running() was queried after the actor task had ended, or a registry operation followed an un-awaited termination",
                 ["C14.R1.running_before_termination", "C14.R2.stopped_after_termination", "C14.R3.from_registry_returns_live_instance",
@@ -121,7 +129,8 @@ PLANS = {
                 "a parent with at least one registered child terminated, or a broadcast was sent to registered children",
                 ["C16.R1.child_outlives_until_parent_ends", "C16.R2.released_child_stops_gracefully", "C16.R2.accepted_messages_handled",
                  "C16.R2.child_held_outside_keeps_running", "C16.R3.broadcast_exactly_once", "C16.R3.only_registered_children",
-                 "C16.R3.not_to_other_types", "C16.R3.unit_broadcast_count"]),
+                 "C16.R3.not_to_other_types", "C16.R3.unit_broadcast_count"],
+                mt=[('tree', 480)], mt_required=['L2:C16.R3.broadcast_exactly_once']),
     "C08": plan(Q08, scale(Q08, 40),
                 "a history in which at least two registry operations of one service type overlapped in time",
                 ["C08.R1.history_linearizable", "C08.R1.concurrent_history", "C08.R_once.default_spawns", "C08.ops.lookup", "C08.ops.register_ok",
@@ -131,12 +140,14 @@ PLANS = {
                          "issued by 1-4 client tasks on 1-2 service types (<= 14 registry ops), executed on the seeded vexec; each per-type history (operations "
                          "with begin/return stamps and observed results, instance identities learnt from replies, instance terminations as instantaneous events) "
                          "is checked for linearizability against a sequential registry model by a memoised Wing-Gong search (2 s cap = inconclusive, counted); "
-                         "distinct = distinct trace hash; non-trivial = two registry operations of one type overlapped"}),
+                         "distinct = distinct trace hash; non-trivial = two registry operations of one type overlapped"},
+                mt=[('registry', 960)], mt_required=['L2:C08.R1.history_linearizable', 'L2:C08.R1.concurrent_history']),
     "C09": plan(Q09, scale(Q09, 40),
                 ">=2 publishers with overlapping publications on a topic, or a subscription change / subscriber termination racing a publish",
                 ["C09.R1.subscribed_exactly_once", "C09.R1.resubscribed_still_once", "C09.R2.not_subscribed_zero", "C09.R3.at_most_once",
                  "C09.R4.common_order", "C09.R4.publisher_order_edges", "C09.R5.subscriber_dies_while_subscribed", "C09.R6.publish_returns_ok",
-                 "C09.R6.reaches_live_despite_dead"]),
+                 "C09.R6.reaches_live_despite_dead"],
+                mt=[('broker', 640)], mt_required=['L2:C09.R2.not_subscribed_zero', 'L2:C09.R3.at_most_once', 'L2:C09.R4.common_order']),
     "C18": {
         "engines": ["xrt"],
         "quick": {"xrt": 1},
